@@ -169,6 +169,14 @@ def guard_table(ctx, body, deep=False, expand=False):
     return cache[k]
 
 
+def unconditional(r_or_ctx, allowed=()):
+    """the guard is evaluated for every element of its quantifiers: no branch condition other than the loop quantifiers (and
+    the atoms / predicate listed in `allowed`) restricts the paths on which it is reached"""
+    c = r_or_ctx['ctx'] if isinstance(r_or_ctx, dict) else r_or_ctx
+    ok = allowed if callable(allowed) else (lambda x: x in allowed)
+    return all(x[0] == 'forall' or ok(x) for x in c)
+
+
 def fmt_atom(a):
     return repr(a)
 
